@@ -460,6 +460,10 @@ def reject_cases():
     for kind in ('cov-bar-name', 'cov-asymmetric', 'cov-indefinite', 'cov-nonsquare', 'cov-wrong-means', 'cov-negative-variance'):
         for dim in (1, 2, 3):
             cases.append({'kind': 'reject', 'what': kind, 'dim': dim})
+    # aliasing: the constructors must not keep references to the caller's mutable arguments
+    for kind in ('alias-idl-list', 'alias-idl-ndarray', 'alias-samples', 'alias-names', 'alias-cov-matrix', 'alias-cov-means', 'alias-jackknife'):
+        for nrep in (1, 2):
+            cases.append({'kind': 'reject', 'what': kind, 'nrep': nrep})
     for kind in ('jack-idl-too-long', 'jack-idl-too-short', 'jack-nonstring-name', 'jack-short', 'jack-unsorted-idl', 'boot-nonstring-name'):
         for n in (5, 6, 9):
             cases.append({'kind': 'reject', 'what': kind, 'n': n})
@@ -502,6 +506,14 @@ def run_case(case):
         except Exception:
             acc.ok((what, dim), True, 'rejected')
         return acc
+    if what.startswith('alias-'):
+        try:
+            return run_alias(pe, acc, case)
+        except engine.MachineryError:
+            raise
+        except Exception as e:
+            acc.fail('alias:%s:raised' % what.split('-', 1)[1], case, 'after the caller modified the %s it had passed in, using the observable raised %s: %s' % (what.split('-', 1)[1], type(e).__name__, e))
+            return acc
     if what.startswith('jack-') or what.startswith('boot-'):
         n = case['n']
         r = alpha.rng('rejjack', n)
@@ -604,14 +616,118 @@ def run_case(case):
         if carrier == 'range' and len(set(np.diff(c))) == 1 and np.diff(c)[0] > 0:
             return range(c[0], c[-1] + 1, c[1] - c[0])
         return list(c)
+    # call history: the same chains were constructed with a VALID request (same names, lengths and end points) just before, and a
+    # valid request made right after a rejected one must still succeed
+    valid_names = ['A|r%d' % (i + 1) for i in range(nrep)]
+    valid_cfgs = [[1, 2, 4, 5, 7, 8, 11], list(range(2, 16, 2)), [3, 4, 6, 7, 9, 10, 12]][:nrep]
+    valid_samples = [alpha.rng('rejv', nrep, i).normal(size=len(c)) for i, c in enumerate(valid_cfgs)]
+
+    def valid_request():
+        v = pe.Obs(valid_samples, valid_names, idl=[(np.array(c) if carrier == 'ndarray' else list(c)) for c in valid_cfgs])
+        return compare.wf_any(v, pe) or (None if {n: list(v.idl[n]) for n in v.idl} == dict(zip(valid_names, valid_cfgs)) else 'configuration lists %s' % v.idl)
     for with_idl in ((True, False) if what in ('dup-name', 'nonstring-name', 'short', 'multi-ens', 'multi-ens-prefix', 'multi-ens-bare-prefix', 'names-samples-mismatch') else (True,)):
         idl = [carry(c, i) for i, c in enumerate(cfgs)] if with_idl else None
+        pre = valid_request()
+        if pre:
+            acc.fail('reject:valid-request-broken', dict(case, with_idl=with_idl), 'a valid constructor request gives a malformed object: %s' % pre)
+            continue
         try:
             o = pe.Obs(samples, names, idl=idl)
             acc.fail('reject:%s' % what, dict(case, with_idl=with_idl), 'constructor accepted a malformed request (%s at %s position, %d chains, %s carrier, idl %s): names=%s idl=%s' % (
                 what, pos, nrep, carrier, 'given' if with_idl else 'absent', o.names, o.idl))
         except Exception:
-            acc.ok((what, nrep, pos, carrier, with_idl), True, 'rejected')
+            post = None
+            try:
+                post = valid_request()
+            except Exception as e:
+                post = 'raised %s: %s' % (type(e).__name__, e)
+            if post:
+                acc.fail('reject:valid-after-rejected', dict(case, with_idl=with_idl), 'a valid request made right after the rejected one (%s): %s' % (what, post))
+            else:
+                acc.ok((what, nrep, pos, carrier, with_idl), True, 'rejected')
+    acc.sample(case)
+    return acc
+
+
+def run_alias(pe, acc, case):
+    """Construct, then let the caller modify / extend the objects it passed in; the observable (and what is derived from it)
+    must stay as constructed."""
+    what, nrep = case['what'], case['nrep']
+    names = ['A|r%d' % (i + 1) for i in range(nrep)]
+    cfgs = [[1, 2, 4, 5, 7, 8, 11], [3, 4, 6, 7, 9, 10, 12, 15]][:nrep]
+    r = alpha.rng('alias', what, nrep)
+    samples = [r.normal(1.0, 0.1, size=len(c)) for c in cfgs]
+
+    def snap(o):
+        return (o.value, tuple(o.names), {n: list(o.idl[n]) for n in o.idl}, {n: o.deltas[n].copy() for n in o.deltas}, dict(o.r_values), o.N,
+                {n: (np.array(c.cov).copy(), np.array(c.grad).copy()) for n, c in o.covobs.items()})
+
+    def same(a, b):
+        return (a[0] == b[0] and a[1] == b[1] and a[2] == b[2] and all(np.array_equal(a[3][n], b[3][n]) for n in a[3]) and a[4] == b[4] and a[5] == b[5]
+                and all(np.array_equal(a[6][n][0], b[6][n][0]) and np.array_equal(a[6][n][1], b[6][n][1]) for n in a[6]))
+    if what in ('alias-idl-list', 'alias-idl-ndarray', 'alias-samples', 'alias-names'):
+        idl = [list(c) for c in cfgs] if what != 'alias-idl-ndarray' else [np.array(c) for c in cfgs]
+        nm = list(names)
+        smp = [x.copy() for x in samples]
+        o = pe.Obs(smp, nm, idl=idl)
+        d1 = o * 2.0 + 1.0
+        before = (snap(o), snap(d1))
+        if what == 'alias-idl-list':
+            for l in idl:
+                l.extend([l[-1] + 3, l[-1] + 4, l[-1] + 9])
+                l[2] = l[1]
+        elif what == 'alias-idl-ndarray':
+            for l in idl:
+                l[2:] = l[2:] + 50
+        elif what == 'alias-samples':
+            for x in smp:
+                x[:] = 7.0
+            smp.append(np.zeros(5))
+        else:
+            nm.append('A|zz')
+            nm[0] = 'Q|r1'
+        d2 = o * 2.0 + 1.0
+        bad = None
+        if not same(before[0], snap(o)):
+            bad = 'the observable changed when the caller modified the %s it had passed in' % what.split('-', 1)[1]
+        elif not same(before[1], snap(d2)):
+            bad = 'an observable derived afterwards differs from the one derived before the caller modified its %s' % what.split('-', 1)[1]
+        bad = bad or compare.wf_any(o, pe) or compare.wf_any(d2, pe)
+    elif what in ('alias-cov-matrix', 'alias-cov-means'):
+        dim = nrep + 1
+        S = np.array(alpha.cov_matrix(dim, True, 'alias'), dtype=float)
+        means = np.array([1.0 + i for i in range(dim)])
+        ol = pe.cov_Obs(means, S, 'cva')
+        mc = pe.Obs([samples[0]], ['A|r1'])
+        d1 = ol[0] * mc + ol[dim - 1]
+        [x.gamma_method() for x in (ol[0], d1)]
+        before = (snap(ol[0]), snap(d1), ol[0].dvalue, d1.dvalue)
+        if what == 'alias-cov-matrix':
+            S *= 9.0
+            S[0, dim - 1] = 5.0
+        else:
+            means[:] = -3.0
+        d2 = ol[0] * mc + ol[dim - 1]
+        [x.gamma_method() for x in (ol[0], d2)]
+        bad = None
+        if not same(before[0], snap(ol[0])) or before[2] != ol[0].dvalue:
+            bad = 'the covariance observable changed (error %r -> %r) when the caller modified the array it had passed in' % (before[2], ol[0].dvalue)
+        elif not same(before[1], snap(d2)) or before[3] != d2.dvalue:
+            bad = 'a derived observable changed (error %r -> %r) after the caller modified the array passed to cov_Obs' % (before[3], d2.dvalue)
+    else:
+        src = pe.Obs([samples[0]], ['A|r1'], idl=[list(cfgs[0])])
+        jk = src.export_jackknife()
+        idl = [list(cfgs[0])]
+        o = pe.import_jackknife(jk, 'A|r1', idl=idl)
+        before = snap(o)
+        jk[:] = 0.0
+        idl[0].append(99)
+        bad = None if same(before, snap(o)) else 'the imported observable changed when the caller modified the jackknife array / idl it had passed in'
+        bad = bad or compare.wf_any(o, pe)
+    if bad:
+        acc.fail('alias:%s' % what.split('-', 1)[1], case, bad)
+    else:
+        acc.ok((what, nrep), True, 'no-aliasing')
     acc.sample(case)
     return acc
 
@@ -670,6 +786,6 @@ def main(tier, seed, jobs):
             'ndarray partners of 8+1 kinds in both positions, **, 17 functions, reweight, correlate, merge_obs, gamma_method, '
             'least_squares, find_root, json/dobs/pickle/jackknife round trips, CObs construction and parts), states merged on '
             'structure; plus the rejection product (13 malformed kinds x 1..3 chains x 3 positions x 5 carriers incl. unsigned integers, 6 covariance '
-            'kinds x 3 dimensions, 6 malformed import_jackknife / import_bootstrap requests x 3 lengths).  Non-trivial = every executed (not disabled) transition and every rejection request' % (
+            'kinds x 3 dimensions, 6 malformed import_jackknife / import_bootstrap requests x 3 lengths; 7 aliasing scenarios: the caller modifies idl lists / arrays, samples, names, covariance matrix, means, jackknife array after the constructor returned).  Non-trivial = every executed (not disabled) transition and every rejection request' % (
                 depth, len(init), len(all_events())))
     return engine.report('C04', tier, seed, LEVEL, tot, time.time() - t0, rule, ASSUMPTIONS, extra_cov=extra, exhaustive=True)
